@@ -1489,3 +1489,10 @@ package kcache
 (declare-fun |box!kcache.handler| (|S!kcache.handler|) V)
 (declare-fun |unbox!kcache.handler| (V) |S!kcache.handler|)
 @*/
+
+/*@ func (*kcache.monitor).Done
+  props C16 C11
+  theory actors
+  requires (and (not (= {m} vnil)) (not (= {m.lc} vnil)))
+  ensures [done-of-its-own-lifecycle-closed-by-run-last] (= result (lc-done {m.lc}))
+@*/
